@@ -212,6 +212,11 @@ func loadKnownFindings() []knownFinding {
 type ledger struct {
 	Property string   `json:"property"`
 	Groups   []string `json:"discharged_groups"`
+	// lockset / lock-order obligations that do NOT discharge on the unchanged
+	// tree (engine imprecision, or helpers analysed without their callers'
+	// locks). Every other lockset / lock obligation is claimed, including ones
+	// that only come into existence after a change.
+	LockUnproved []string `json:"lock_groups_unproved_on_the_unchanged_tree"`
 }
 
 func loadLedger(prop string) map[string]bool {
@@ -227,7 +232,24 @@ func loadLedger(prop string) map[string]bool {
 	for _, g := range l.Groups {
 		m[g] = true
 	}
+	if l.LockUnproved != nil {
+		m["\x00lock-exclusion-list"] = true
+		for _, g := range l.LockUnproved {
+			m["\x00unproved:"+g] = true
+		}
+	}
 	return m
+}
+
+// claimed: is a failure of this obligation a violation of prop?
+func claimed(o *Obligation, led map[string]bool) bool {
+	if alwaysClaimed(o.Kind) {
+		return true
+	}
+	if (o.Kind == "lockset" || o.Kind == "lock") && led["\x00lock-exclusion-list"] {
+		return !led["\x00unproved:"+o.Group]
+	}
+	return led[o.Group]
 }
 
 func hasTag(tags []string, t string) bool {
@@ -275,6 +297,7 @@ func cmdCheck(args []string) int {
 	if *tier == "thorough" {
 		timeout = 60000
 	}
+	eng.updatingLedger = *update
 	rep := eng.checkProperty(*prop, timeout, *tier == "thorough", *verbose)
 	rep.WallS = time.Since(start).Seconds()
 	rep.Seed = seed
@@ -385,6 +408,9 @@ func (eng *Engine) checkProperty(prop string, timeoutMs int, all_ bool, verbose 
 			if c := eng.specs.Funcs[k]; c != nil && (c.Assumed || c.HasTag(prop)) {
 				continue
 			}
+			if strings.Contains(fn.Name(), "$") {
+				continue // closures are executed inside the functions that create them
+			}
 			if strings.HasSuffix(eng.fset.Position(fn.Pos()).Filename, "/testing.go") {
 				continue // test helpers compiled into the package
 			}
@@ -473,7 +499,21 @@ func (eng *Engine) checkProperty(prop string, timeoutMs int, all_ bool, verbose 
 		}
 	}
 	tSolve := time.Now()
-	eng.solveAll(rep.All, timeoutMs, all)
+	toSolve := rep.All
+	if !eng.updatingLedger {
+		// obligations whose failure could not be reported (safety obligations
+		// outside the ledger) are not sent to the solvers
+		ledNow := loadLedger(prop)
+		toSolve = nil
+		for _, o := range rep.All {
+			if o.Status == "" && !o.ExpectSat && !claimed(o, ledNow) {
+				o.Status, o.Solver = "not-claimed", "-"
+				continue
+			}
+			toSolve = append(toSolve, o)
+		}
+	}
+	eng.solveAll(toSolve, timeoutMs, all)
 	if verbose {
 		fmt.Fprintf(os.Stderr, "solve phase: %.1fs for %d obligations\n", time.Since(tSolve).Seconds(), len(rep.All))
 		type st struct {
@@ -534,7 +574,7 @@ func (eng *Engine) checkProperty(prop string, timeoutMs int, all_ bool, verbose 
 			rep.Known = append(rep.Known, o)
 			continue
 		}
-		if !alwaysClaimed(o.Kind) && !led[o.Group] {
+		if !claimed(o, led) {
 			rep.NotClaimed = append(rep.NotClaimed, o)
 			continue
 		}
@@ -550,6 +590,11 @@ func (eng *Engine) touchesSharedState(fn *ssa.Function) bool {
 	for _, g := range eng.specs.Guards {
 		for _, f := range g.Fields {
 			guarded[strings.TrimSuffix(f, "[]")] = true
+		}
+	}
+	for _, af := range fn.AnonFuncs {
+		if eng.touchesSharedState(af) {
+			return true
 		}
 	}
 	for _, b := range fn.Blocks {
@@ -581,7 +626,24 @@ func writeLedger(prop string, rep *checkReport) {
 	}
 	sort.Strings(gs)
 	os.MkdirAll(filepath.Join(verifDir, "ledger"), 0o755)
-	data, _ := json.MarshalIndent(ledger{Property: prop, Groups: gs}, "", " ")
+	lu := []string{}
+	seenLU := map[string]bool{}
+	for _, o := range rep.All {
+		if (o.Kind == "lockset" || o.Kind == "lock") && rep.failedGroups[o.Group] && !seenLU[o.Group] {
+			isKnown := false
+			for _, k := range rep.Known {
+				if k.Group == o.Group {
+					isKnown = true
+				}
+			}
+			if !isKnown {
+				seenLU[o.Group] = true
+				lu = append(lu, o.Group)
+			}
+		}
+	}
+	sort.Strings(lu)
+	data, _ := json.MarshalIndent(ledger{Property: prop, Groups: gs, LockUnproved: lu}, "", " ")
 	os.WriteFile(filepath.Join(verifDir, "ledger", prop+".json"), append(data, '\n'), 0o644)
 }
 
